@@ -182,6 +182,10 @@ func (s *session) SignalSubscribe(pkt *mqttp.Subscribe) (mqttp.IFace, error) {
 	// Now put retained messages into publish queue
 	for _, rp := range retainedPublishes {
 		if p, e := rp.Clone(s.version); e == nil {
+			if p.Version() < mqttp.ProtocolV50 && s.version >= mqttp.ProtocolV50 {
+				// retained by a pre-v5 publisher: no storage for the properties the writer adds
+				p.PropertiesDiscard()
+			}
 			p.SetRetain(true)
 			s.conn.Publish(s.id, p)
 		} else {
